@@ -25,6 +25,11 @@ TABLES = [
     ('T2', 'T2::.table([["a" [3]] ["b" [30]]]);.index(T2;["a"])', {3: (3, 30)}),
     ('T3', 'T3::.table([["a" [7 8]] ["b" [70 80]]])', {0: (7, 70), 1: (8, 80)}),
     ('T4', 'T4::.table([["a" [9 9 9]] ["b" [1 2 3]]])', {0: (9, 1), 1: (9, 2), 2: (9, 3)}),
+    # six rows on the same six indexes: with >= 4 equal indexes an unstable sort no longer keeps "stored before new"
+    ('T5', 'T5::.table([["a" [1 2 3 4 5 6]] ["b" [101 102 103 104 105 106]]]);.index(T5;["a"])',
+     {i: (i, 100 + i) for i in range(1, 7)}),
+    ('T6', 'T6::.table([["a" [1 2 3 4 5 6]] ["b" [201 202 203 204 205 206]]]);.index(T6;["a"])',
+     {i: (i, 200 + i) for i in range(1, 7)}),
 ]
 
 
@@ -166,6 +171,12 @@ def expand(hist):
             bad = []
             if got != exp:
                 bad.append(('result', _show(got), _show(exp)))
+            if op[0] == 'set' and got[0] == 'ok':
+                # what the store holds right after the set (the merge is judged where it happens, not one step later)
+                back = do(env, ('get', op[1]))
+                want = ('ok', ('table', model[op[1]]))
+                if back != want:
+                    bad.append(('stored-after-set', _show(back), _show(want)))
             bad.extend(invariants(env))
             out['transitions'] += 1
             c = env.st.cache
